@@ -114,7 +114,9 @@ def inspected_clean_reasons(ctx, rid):
             if any(fa.dominates(r, sw) for r in d.read_stamp) and not _mentions_named(D, D.blocks[cbb]["term"], "state::Stamp::MISSING")]
     common.not_reach_f(ctx, rid, "%s|reason:stamp-mismatch=>not-Clean" % D.key, D, [ne_t for (_, _, ne_t) in cmp_] or [0], target + d.deps_calls,
                        "a stamp that differs from the recorded one never leads to the dependency walk / Clean", "a changed stamp can still end in Clean")
-    nostamp = [sw for sw in sorted(ba.live) if _discr_of_call_field(D, ba, sw, "state::File.stamp")]
+    # the stored stamp's None/Some test, however spelled: `match f.stamp.as_ref()`, `if let Some(..) = f.stamp`,
+    # `f.stamp.is_none()` / `is_some()`
+    nostamp = [sw for sw in sorted(ba.live) if _discr_of_call_field(D, ba, sw, "state::File.stamp") or _tests_option_field(D, ba, sw, "state::File.stamp")]
     common.mpt_f(ctx, rid, "%s|reason:no-stamp" % D.key, D, [0], target, nostamp, "a missing stored stamp is tested on every path to Clean",
                "Clean is reachable without testing that a stamp was ever recorded")
     common.mpt_f(ctx, rid, "%s|reason:dependencies-walked" % D.key, D, [0], target, d.deps_calls, "File::deps is iterated on every path to Clean",
@@ -134,6 +136,9 @@ def inspected_clean_reasons(ctx, rid):
     return d
 
 
+_STAMP_TY = re.compile(r"&*(mut)?(state::Stamp|core::option::Option<&*(mut)?state::Stamp>)")
+
+
 def stamp_comparisons(D):
     """[(switch, equal-edge target, differ-edge target, call block)] branches on a `==` / `!=` between
     state::Stamp values, however the comparison is spelled (`a == b`, `a != b`, `&a == &b`, the derived `eq`
@@ -142,7 +147,8 @@ def stamp_comparisons(D):
     out = []
     for (sw, t_t, f_t, cbb) in ba.switches_on_call(r".*core::cmp::PartialEq(<.*>)?( for .*)?>?::(eq|ne)|core::cmp::PartialEq::(eq|ne)"):
         t = D.blocks[cbb]["term"]
-        if not all(re.fullmatch(r"&*(state::Stamp)", ty.replace(" ", "")) for ty in t.get("arg_tys", [])) or len(t.get("arg_tys", [])) != 2:
+        # the compared values are stamps: `Stamp`, `&Stamp`, or the same behind an Option (`f.stamp.as_ref() != Some(&new)`)
+        if not all(_STAMP_TY.fullmatch(ty.replace(" ", "")) for ty in t.get("arg_tys", [])) or len(t.get("arg_tys", [])) != 2:
             continue
         if any(p_.endswith("::ne") for p_ in callee_paths(t)):
             out.append((sw, f_t, t_t, cbb))
@@ -328,7 +334,12 @@ def memoisation(ctx, rid):
     ctx.ob(rid, "File::set_checked|checked_runid:=env.runid", ok, where=scb.span, detail="set_checked records the current run id" if ok else "set_checked does not record the run id")
     scs = prog.one(r"state::File::set_checked_save")
     sba = BA.of(scs)
-    ok = bool(sba.calls(r"state::File::set_checked")) and bool(sba.calls(r"state::File::save"))
+    # marks (through File::set_checked, whose own write is checked above, or by writing checked_runid := env.runid
+    # itself) and then saves: the mark lies on every path to the save
+    marks = set(sba.calls(r"state::File::set_checked"))
+    marks |= {bb for bb, _, s in field_writes(scs, r"state::File\.checked_runid") if common.reads_field(scs, s["rv"], "env::Env.runid")}
+    saves = sba.calls(r"state::File::save")
+    ok = bool(marks) and bool(saves) and sba.path([0], saves, avoid=frozenset(marks), incl=True) is None
     ctx.ob(rid, "File::set_checked_save|marks-and-saves", ok, where=scs.span, detail="set_checked then save")
 
 
@@ -376,12 +387,33 @@ def checksum_verdicts(ctx, rid):
         cut = frozenset((sw2, e2) for (sw2, e2, n2) in cs if sw2 != sw and _same_test_again(d, sw, n_t, sw2, nexts))
         p = fa.path([n_t], d.dirty, avoid=frozenset(nexts), cut_edges=cut, incl=True)
         own = [x for x in d.need if fa.edge_dominates((sw, n_t), x)]
-        carries_f = False
-        for x in own:
-            io = [i for i in ba.calls(r"deps::MutOrOwned::into_owned") if fa.dominates(i, x) and fa.edge_dominates((sw, n_t), i)]
-            carries_f = carries_f or bool(io)
+        # ... carrying the judged file itself: the payload of the NeedTargets built on this side goes back, by
+        # value-preserving steps (clone / into_owned / deref, the vec![..] construction), to the File whose checksum
+        # this switch tests - whatever owns that File (a `MutOrOwned`, a plain `&mut File`, ..)
+        carries_f = any(_carries_judged_file(d, sw, x) for x in own)
         ctx.ob(rid, "%s|%s|checksummed=>NeedTargets(self)" % (D.key, k), p is None and (carries_f or not _reaches_any(fa, n_t, d.need, nexts)), where=ctx.where(D, sw),
                detail="on the checksummed side the verdict is NeedTargets carrying the file itself" if p is None else "checksummed side can return Dirty")
+
+
+_CONTAINER_CTOR = re.compile(r"alloc::boxed::box_assume_init_into_vec_unsafe|alloc::slice::<impl \[T\]>::into_vec|alloc::vec::Vec::push|"
+                             r"alloc::vec::from_elem|core::iter::sources::once::once|.*::iterator::Iterator>?::collect|core::array::<impl .*>::.*")
+
+
+def _carries_judged_file(d, sw, x):
+    """Is the payload of the `NeedTargets` aggregate built in block x a copy of the File whose checksum the switch `sw`
+    tests?  Forward direct value flow from the parameter(s) the tested receiver goes back to."""
+    D, ba = d.D, d.ba
+    recv = {l for l in _checksum_receiver_slice(d, sw) if 1 <= l <= D.arg_count}
+    if not recv:
+        return False
+    tn = taint(D, seeds=recv, mode="direct", through=_CONTAINER_CTOR)
+    for s in D.blocks[x]["stmts"]:
+        if s["s"] == "assign" and s["rv"]["k"] == "agg" and s["rv"].get("adt") == "deps::Dirtiness" and s["rv"].get("variant") == "NeedTargets":
+            for o in s["rv"]["ops"]:
+                l = op_local(o)
+                if l is not None and (l in tn or any(y in tn for y in ba.ref_chain(l))):
+                    return True
+    return False
 
 
 def _checksum_receiver_slice(d, sw):
@@ -474,53 +506,137 @@ def _mentions_named(D, t, named):
     return False
 
 
-def visited_set(ctx, rid):
-    """R12.5: cycle detection in the recorded graph walk."""
-    d = Dirt(ctx.prog)
-    D, ba, fa = d.D, d.ba, d.fa
+def _arg_in(ba, l, tset):
+    return l is not None and (l in tset or any(x in tset for x in ba.ref_chain(l)))
+
+
+def _cycle_walk_map(d):
+    """Representation-independent map of the cycle detection of the recorded-graph walk.
+
+    own ids      : results of `File::id` on the judged file (receiver goes back to a parameter), and their direct aliases
+    visited role : every other parameter p; dp[p] = what is read out of it by direct steps (moves, borrows, derefs,
+                   field projections, identity conversions such as clone): the set itself, a link of an ancestor chain, ..
+    tests        : branches that compare an own id with something read out of p - a predicate call that is handed both
+                   (`set.contains(&id)`, `list.contains(..)`, a membership helper) or an `==` / `!=` between the two (a
+                   membership loop over a chain / slice that a helper spliced in): [(block, positive-edge targets, p)]
+    examinations : the test blocks plus the branches on the shape of something read out of p (`while let Some(a) =
+                   link`): where the routine looks at what its caller handed in
+    """
+    D, ba = d.D, d.ba
     params = set(range(1, D.arg_count + 1))
-    # the cycle test: `contains` on the visited set the *caller handed in* (a parameter, or a field of a parameter
-    # struct), outside any configuration-only code (a debug_assert! that re-checks membership is not the test)
-    cont = []
-    for (sw, t_t, f_t, cbb) in ba.switches_on_call(r"std::collections::hash::set::HashSet::contains"):
-        if ba.config_guards(cbb):
+    idc = []
+    file_params = set()
+    for i in ba.calls(r"state::File::id"):
+        if ba.config_guards(i):
             continue
-        sl, _, _ = backward_direct(D, op_local(D.blocks[cbb]["term"]["args"][0]))
+        sl, _, _ = backward_direct(D, op_local(D.blocks[i]["term"]["args"][0]))
         ps = {l for l in sl if l in params}
         if ps:
-            cont.append((sw, t_t, f_t, cbb, ps))
+            idc.append(i)
+            file_params |= ps
+    oid = taint(D, seeds={D.blocks[i]["term"]["dest"]["l"] for i in idc}, mode="direct") if idc else set()
+    dp = {p: taint(D, seeds={p}, mode="direct") for p in sorted(params - file_params)}
+    tests = []
+    for sw in sorted(ba.live):
+        bs = ba.bool_switch(sw)
+        if not bs or D.is_cleanup(sw):
+            continue
+        t_t, f_t, (kind, info) = bs
+        if kind == "call":
+            cbb, t = info
+            if ba.config_guards(cbb):
+                continue
+            ls = [op_local(a) for a in t["args"]]
+            has_id = [n for n, l in enumerate(ls) if _arg_in(ba, l, oid)]
+            if not has_id:
+                continue
+            for p, tp in dp.items():
+                if any(_arg_in(ba, l, tp) and has_id != [n] for n, l in enumerate(ls)):
+                    # a membership predicate of the standard library answers `true` for "present"; for any other
+                    # predicate the side that always ends in the cycle error is the positive one
+                    pos = [t_t] if any(q.endswith("::contains") or q.endswith("::contains_key") for q in callee_paths(t)) else [t_t, f_t]
+                    tests.append((cbb, pos, p))
+        elif kind == "binop" and info[1]["op"] in ("Eq", "Ne"):
+            if ba.config_guards(sw):
+                continue
+            a, b = op_local(info[1]["a"]), op_local(info[1]["b"])
+            for p, tp in dp.items():
+                if (_arg_in(ba, a, oid) and _arg_in(ba, b, tp)) or (_arg_in(ba, b, oid) and _arg_in(ba, a, tp)):
+                    tests.append((sw, [t_t if info[1]["op"] == "Eq" else f_t], p))
+    return oid, dp, tests
+
+
+def visited_set(ctx, rid):
+    """R12.5: cycle detection in the recorded graph walk - stated over value flow, not over a container type: the
+    caller hands in the ancestors (a set, a chain of links, a slice, possibly inside a parameter struct); the routine
+    first tests its own file id for membership (positive => CyclicDependency), and what it hands to the recursive
+    call is built from both its own id and what it was handed."""
+    d = Dirt(ctx.prog)
+    D, ba, fa = d.D, d.ba, d.fa
+    oid, dp, tests = _cycle_walk_map(d)
     ok = False
     set_params = set()
     errs = [i for i in common.blocks_with_agg(D, r"error::RedoErrorKind", "CyclicDependency")]
-    for (sw, t_t, f_t, cbb, ps) in cont:
+    getter = re.compile(r".*(deref|deref_mut|File::id|Deref::deref)")
+    for (tb, pos, p) in tests:
+        # where the routine examines what it was handed in p: the tests on p and the branches on the shape of a value
+        # read out of p (end of an ancestor chain)
+        exam = {b for (b, _, q) in tests if q == p}
+        for sw in sorted(ba.live):
+            es = ba.enum_switch(sw)
+            if es and es[0]["l"] in dp[p] and not ba.config_guards(sw):
+                exam.add(sw)
         # nothing happens before the test except reading the file's identity (getters / derefs) and
         # configuration-only code (debug_assert! conditions: they run under `cfg!(debug_assertions)` only)
-        first = all(fa.dominates(cbb, x) or bool(ba.config_guards(x)) for x in ba.all_calls()
-                    if x != cbb and not call_matches(D.blocks[x]["term"], r".*(deref|deref_mut|File::id|Deref::deref)"))
-        p = fa.path([t_t], ba.returns(), avoid=frozenset(errs), incl=True)
-        if bool(errs) and p is None and first:
+        first = all(any(fa.dominates(e, x) for e in exam) or bool(ba.config_guards(x)) for x in ba.all_calls()
+                    if x not in exam and not call_matches(D.blocks[x]["term"], getter))
+        decided = bool(errs) and any(fa.path([e], ba.returns(), avoid=frozenset(errs), incl=True) is None for e in pos)
+        if decided and first:
             ok = True
-            set_params |= ps
+            set_params.add(p)
     ctx.ob(rid, "%s|visited-test-first=>CyclicDependency" % D.key, ok, where=D.span,
            detail="the visited-set test is the first action and its true side returns CyclicDependency" if ok else "cycle test missing, late, or not returning CyclicDependency")
-    ins = [i for i in ba.calls(r"std::collections::hash::set::HashSet::insert") if not ba.config_guards(i)]
-    ok = bool(ins) and bool(d.rec) and all(any(fa.dominates(i, r) for i in ins) for r in d.rec)
+    # where the own id meets what was handed in: a call that is given an own id and mutates (`&mut`) or consumes a value
+    # read out of the visited parameter (`set.insert(id)`, `extended(set, id)`), or an aggregate built from both
+    # (`Link { id, outer }`): [(block, product local)]
+    dP = set()
+    for p in set_params:
+        dP |= dp[p]
+    meets = []
+    for i in sorted(ba.live):
+        if D.is_cleanup(i) or ba.config_guards(i):
+            continue
+        blk = D.blocks[i]
+        for s in blk["stmts"]:
+            if s["s"] != "assign" or s["place"]["p"]:
+                continue
+            ls = [pl["l"] for pl in rvalue_places(s["rv"])]
+            if any(l in oid for l in ls) and any(l in dP for l in ls):
+                meets.append((i, s["place"]["l"]))
+        t = blk["term"]
+        if t["t"] == "call" and not t["dest"]["p"]:
+            ls = [op_local(a) for a in t["args"]]
+            if any(_arg_in(ba, l, oid) for l in ls):
+                for l, ty in zip(ls, t.get("arg_tys", [])):
+                    if l is None or not _arg_in(ba, l, dP) or _arg_in(ba, l, oid):
+                        continue
+                    meets.append((i, ba.base_local_of_ref(l) if ty.startswith("&mut ") else t["dest"]["l"]))
+    meets = [(i, m) for (i, m) in meets if D.locals[m] != "bool"]
+    ok = bool(meets) and bool(d.rec) and all(any(fa.dominates(i, r) for (i, _) in meets) for r in d.rec)
     ctx.ob(rid, "%s|own-id-inserted-before-recursion" % D.key, ok, where=D.span, detail="the file's id is inserted into the visited set before any recursive call")
     ok = False
-    if ins and d.rec and set_params:
-        t = D.blocks[ins[0]]["term"]
-        ext_local = ba.base_local_of_ref(op_local(t["args"][0]))
-        ext_alias = taint(D, seeds={ext_local}, mode="direct")
+    if meets and d.rec and set_params:
+        ext = [(i, taint(D, seeds={m}, mode="direct")) for (i, m) in meets]
         ok = True
         for r in d.rec:
             rt = D.blocks[r]["term"]
-            # the argument in the position of the visited set (the parameter the cycle test reads: a set, or a
-            # struct carrying it) is, or directly contains a reference to, the extended set
+            # the argument in the position of the visited parameter (the one the cycle test reads: a set, a link, or a
+            # struct carrying it) is, or directly contains a reference to, the extended value - built before the call
             hit = False
             for k in set_params:
                 if k - 1 < len(rt["args"]):
                     al = op_local(rt["args"][k - 1])
-                    hit = hit or (al is not None and (al in ext_alias or any(x in ext_alias for x in ba.ref_chain(al))))
+                    hit = hit or any(fa.dominates(i, r) and _arg_in(ba, al, e) for (i, e) in ext)
             ok = ok and hit
     ctx.ob(rid, "%s|recursion-gets-extended-set" % D.key, ok, where=D.span, detail="the recursive call receives the extended visited set" if ok else "the recursive call is given the un-extended set: a cycle in the recorded graph recurses forever")
 
